@@ -137,7 +137,7 @@ def plain_values_for(e, attr, rng, k):
         return pick([30.0, -45.0, 90.0, 12.5, 60])
     if attr == "dip":
         # while `vertical` is set the only valid dip is 90 (documented dependency of the two attributes)
-        return pick([15.0, 45.0, -30.0, 60.0, 30]) if cname == "Grid2D" and not e.vertical else None
+        return pick([15.0, 45.0, 90.0, 60.0, 30, 90]) if cname == "Grid2D" and not e.vertical else None
     if attr == "origin":
         return pick([[1.0, 2.0, 3.0], [-10.5, 0.0, 99.0], [1e5, -1e5, 0.5]])
     if attr in ("u_count", "v_count", "w_count"):
@@ -378,7 +378,7 @@ def raw_attr(path, kind, subject, attr):
         return True, v
 
 
-HEADER_VALUES = {"distance_unit": ["feet", "kilometer"], "contributors": [["ann", "bob"], ["cy"]], "ga_version": ["4.2", "3.9"], "version": [2.0, 1.0]}
+HEADER_VALUES = {"distance_unit": ["feet", "kilometer"], "contributors": [["ann", "bob"], ["cy"]], "ga_version": ["4.2", "3.9"], "version": [2.1, 1.5]}
 
 
 def attrs_of(kind, subject):
@@ -400,7 +400,7 @@ def safe_get(subject, attr):
         return f"<raises {type(exc).__name__}: {exc}>"
 
 
-def judge_reader(rec, path, kind, uid, label, expect, tag):
+def judge_reader(rec, path, kind, uid, label, expect, tag, coupled=None):
     """A later reader of the closed file: getters == what the live session showed; raw attribute agrees.
     Returns False when the file can no longer be read at all."""
     from geoh5py.workspace import Workspace
@@ -433,6 +433,14 @@ def judge_reader(rec, path, kind, uid, label, expect, tag):
                 exp = int(live) if isinstance(live, (bool, np.bool_)) else live
                 rec.check("C03.raw", not (isinstance(raw, str) and raw == "<absent>") and matches(exp, raw if not isinstance(raw, np.ndarray) else raw.tolist()), op=tag, cls=label, attr=attr,
                           detail=f"live value {short(canon(live), 100)}; raw HDF5 attribute holds {short(canon(raw), 100)}")
+        if coupled:
+            only = sorted(expect)[0]
+            for other, live in coupled.items():
+                if isinstance(live, str) and live.startswith("<raises"):
+                    continue
+                got = safe_get(s2, other)
+                rec.check("C03.reopen", same(live, got), op=tag, cls=label, attr=f"{only}->{other}",
+                          detail=f"after assigning {only}, the live entity showed {other} = {short(canon(live), 120)}; a fresh reader sees {short(canon(got), 120)}")
     finally:
         ws2.close()
     return "clean" if len(rec.failures) == n_fail else "mismatch"
@@ -477,7 +485,8 @@ def run_case(case, rec):
         def rebuild():
             if os.path.exists(path):
                 os.remove(path)
-            w = Workspace.create(path)
+            # the header case starts from an integer-typed version number, so that a later fractional one must change the stored type
+            w = Workspace.create(path, **({"version": 2} if kind == "header" else {}))
             u = build_subject(w, kind, cname, random.Random(case["seed"] + 1))
             w.close()
             return u
@@ -506,10 +515,13 @@ def run_case(case, rec):
                 v = vals[i]
                 ok = assign(rec, subject, attr, v, label, "alone")
                 live = safe_get(subject, attr)
+                # attributes are coupled (dip / vertical, surveys / end_of_hole, ...): everything the entity shows now is what a
+                # later reader must see, not only the attribute that was assigned
+                coupled = {a: safe_get(subject, a) for a in attrs if a != attr and a not in ("parts",)} if kind not in ("header",) else {}
                 del subject
                 ws.close()
                 if ok:
-                    verdict = judge_reader(rec, path, kind, uid, label, {attr: (v, live)}, ok)
+                    verdict = judge_reader(rec, path, kind, uid, label, {attr: (v, live)}, ok, coupled)
                     if verdict == "clean":
                         n_ok += 1
                     else:  # lost or unreadable: start again from a fresh file so that later attributes are judged on their own
